@@ -17,7 +17,9 @@ SHARD = 40
 RULE = ("a case is a namespace tree on disk (3-12 definitions in 1-3 root directories; chains, diamonds, several versions of one "
         "name, relative and absolute references, references through arrays, cross-root references, optional cycles / self "
         "references / wrong-case spellings / case-variant sibling names / the same name and version in a second same-named "
-        "root / missing versions) plus read_namespace and read_files calls for several target subsets, and one read_files "
+        "root / missing versions / a namespace component that equals or starts with the short name of a definition inside it, with "
+        "relative references at several depths and optionally a same-named definition in the namespace obtained by deleting "
+        "that component) plus read_namespace and read_files calls for several target subsets, and one read_files "
         "call per definition on its own; non-trivial = at least one call returns a type with a nested composite or fails in "
         "resolution; distinct = by hash of the canonical case")
 THEOREMS_NOTE = ("C09_resolve_exact / C09_resolve_never_other / C09_errors fix the outcome of a resolution, C09_terminates / C09_cycles / "
@@ -186,8 +188,10 @@ def run_query(base, case, q, idmap, variant=None):
     how = (variant or {}).get("how", "abs")
     links = set()
 
-    def sp(comps):
-        s = spell(base, comps, how, links)
+    how_t = (variant or {}).get("how_targets", how)      # the target files may be spelled differently from the directories
+
+    def sp(comps, h=None):
+        s = spell(base, comps, h or how, links)
         return Path(s) if (variant or {}).get("as_path") else s
 
     def args(dirs):
@@ -218,7 +222,7 @@ def run_query(base, case, q, idmap, variant=None):
             targets = []
             for i in q["targets"]:
                 f = files[i]
-                targets.append(sp(f["dir"] + [basename(f)]))
+                targets.append(sp(f["dir"] + [basename(f)], how_t))
             direct, trans = pydsdl.read_files(targets, args(q["roots"]), args(q["lookups"]), handler, allow_unregulated_fixed_port_id=True)
         ob = {"ok": {"direct": [obs_tree(t, idmap) for t in direct], "trans": [obs_tree(t, idmap) for t in trans],
                      "deliv": deliv, "opened": sorted(set(idmap.get(p, -1) for p in _STATE["opened"]))}}
@@ -414,7 +418,7 @@ def all_dirs_queries(rng, roots, defs, extra_lookups=None):
 
 
 def gen_case(rng, tier, flavor=None):
-    flavor = flavor or rng.choice(["plain", "plain", "plain", "plain", "cycle", "case", "dup_root", "wrongcase", "self", "twins", "f7"])
+    flavor = flavor or rng.choice(["plain", "plain", "plain", "plain", "cycle", "case", "dup_root", "wrongcase", "self", "twins", "f7", "nsprefix", "nsprefix"])
     opts = {"print_p": 0.15, "missing_p": 0.015, "badrel_p": 0.015, "fault_p": 0.01}
     if flavor == "cycle":
         opts["cycle_p"] = 0.25
@@ -456,6 +460,8 @@ def gen_case(rng, tier, flavor=None):
         defs.append(mkfile(i + 2, d, "Yq", 1, 0, [["ref", ref_t, ver[0], ver[1], rng.choice([0, 0, 2])]]))
         if defs and rng.random() < 0.5:
             defs.append(mkfile(i + 3, d, "Zq", 1, 0, [["ref", "Yq", 1, 0, 0], ["ref", other, ver[0], ver[1], 0]]))
+    if flavor == "nsprefix":
+        add_nsprefix(rng, roots[0], defs)
     qs = all_dirs_queries(rng, roots, defs)
     return {"files": defs, "queries": qs, "flavor": flavor, "dirs": roots}
 
@@ -471,6 +477,39 @@ def make_twin(rng, defs, o, same):
     else:
         c["ext"] = "uavcan" if o["ext"] == "dsdl" else "dsdl"
     return c
+
+
+def add_nsprefix(rng, root, defs, short=None, comp=None, pre=None, post=None, wrong=None):
+    """A namespace component that equals / starts with the short name of a definition inside it, and relative references
+    from that definition (and from a sibling, as control) at several depths.  `wrong`: a definition with the referenced
+    short name also exists in the namespace one gets by deleting every ".<Short>" from the full name."""
+    short = short or rng.choice(["Sta", "Node", "thing", "Kq", "B"])
+    comp = comp or rng.choice([short, short, short + "Ext", short + "es", short + "_1"])
+    pre = pre if pre is not None else rng.choice([[], [], ["s"], ["s", "t"]])
+    post = post if post is not None else rng.choice([[], [], [], ["t"], [short]])
+    wrong = (rng.random() < 0.5) if wrong is None else wrong
+    d = root + pre + [comp] + post
+    i = len(defs)
+    arr = rng.choice([0, 0, 2])
+    defs.append(mkfile(i, d, short, 1, 0, [["ref", "Code", 1, 0, arr], ["plain", 8]]))
+    defs.append(mkfile(i + 1, d, "Code", 1, 0, [["plain", 8]]))
+    defs.append(mkfile(i + 2, d, "Other", 1, 0, [["ref", "Code", 1, 0, 0]]))
+    n = i + 3
+    if rng.random() < 0.5:
+        # one level further down: a definition of the same short name below, referring relatively to its own sibling
+        d2 = d + ["u"]
+        defs.append(mkfile(n, d2, short, 1, 0, [["ref", "Leaf", 1, 0, 0], ["ref", ".".join([root[-1]] + d[len(root):] + ["Code"]), 1, 0, 0]]))
+        defs.append(mkfile(n + 1, d2, "Leaf", 1, 0, [["plain", 16]]))
+        n += 2
+    if wrong:
+        for dd, nm in [(d, "Code")] + ([(d + ["u"], "Leaf")] if n > i + 3 else []):
+            full = ".".join([root[-1]] + dd[len(root):] + [short])
+            bad_ns = full.replace("." + short, "").split(".")
+            if bad_ns and bad_ns[0] == root[-1]:
+                wd = root + bad_ns[1:]
+                if not any(x["dir"] == wd and x["short"] == nm and (x["maj"], x["min"]) == (1, 0) for x in defs):
+                    defs.append(mkfile(n, wd, nm, 1, 0, [["plain", 16]]))
+                    n += 1
 
 
 def mkfile(i, d, short, maj, mnr, body, ext="dsdl", port=None):
@@ -515,6 +554,12 @@ def corpus():
         {"k": "ns", "root": ns, "lookups": [r2], "allow": True}, {"k": "ns", "root": ns, "lookups": [r2], "allow": False},
         {"k": "ns", "root": ns, "lookups": [], "allow": True}, {"k": "files", "targets": [0], "roots": [ns, r2], "lookups": []},
         {"k": "files", "targets": [1, 2], "roots": [ns, r2], "lookups": []}, {"k": "files", "targets": [3, 1], "roots": [ns], "lookups": [r2]}]})
+    # relative references from a definition whose short name is (the beginning of) one of its namespace components
+    for comp, pre, post, wrong in [("Sta", [], [], True), ("Sta", [], [], False), ("StaExt", ["s"], [], True), ("Sta", ["s"], ["t"], True),
+                                   ("thing", ["thing"], [], True), ("Sta", [], ["Sta"], False)]:
+        fs = []
+        add_nsprefix(__import__("random").Random(7), ns, fs, short=comp if comp in ("Sta", "thing") else "Sta", comp=comp, pre=pre, post=post, wrong=wrong)
+        out.append(mk(fs))
     # a target that is later reached as a dependency and the other way round (promotion)
     out.append(mk([mkfile(0, ns, "A", 1, 0, [["ref", "Z", 1, 0, 0], ["print"]]), mkfile(1, ns, "Z", 1, 0, [["print"], ["plain", 8]]),
                    mkfile(2, ns, "M", 1, 0, [["ref", "A", 1, 0, 1]])]))
